@@ -84,7 +84,12 @@ func c13wWorld(i int) (*vfWorld, error) {
 	if w, ok := c13wWorlds[i]; ok {
 		return w, nil
 	}
-	w, err := vfNewTCPWorld(c13wMappings[i].apply)
+	w, err := vfNewTCPWorld(func(cfg *config.ClusterConnConfig) {
+		// unrelated settings next to the mappings under test (a different subset per world and per seed)
+		knobs := []int{vfKnobFVI, vfKnobRepEP | vfKnobMuxCount, vfKnobLCM11 | vfKnobFVI, 0}[(i+int(vfshared.Seed()%4))%4]
+		vfUnrelated(cfg, knobs)
+		c13wMappings[i].apply(cfg)
+	})
 	if err != nil {
 		return nil, err
 	}
